@@ -416,6 +416,10 @@ class Monitor:
             pass
 
 
+# timeouts (seconds) beyond the range of a 32-bit integer: they never expire within a schedule, and must not be mistaken for 0 or a negative number
+HUGE = [0x7fffffff, 0x80000000, 0xffffffff, 0x100000000, 0x10000001e, 0x7fffffff00]
+
+
 def run_schedule(sess, rng, r, schedule, cache, label, snd_to=10, rcv_to=10, con_to=10, maxreq=1000):
     sub = rng.getrandbits(48)
     rng = random.Random(sub)           # every schedule has its own generator so that it can be replayed alone
@@ -556,7 +560,7 @@ def worker(job, r):
             n = rng.choice([6, 15, 40, 120])
             weights = {'add': 6, 'run': 8, 'ok': 6, 'ok_last': 2, 'clock': 2}
             sched = rng.choices(HTTP_ACTIONS, weights=[weights.get(a, 1) for a in HTTP_ACTIONS], k=n)
-            m = run_http_schedule(sess, rng, r, sched, cache, 'h%d-%d' % (seed, i), snd_to=rng.choice([10, 10, 3, 0]), rcv_to=rng.choice([10, 10, 3, 0]), maxreq=rng.choice([1000, 1000, 1, 2]))
+            m = run_http_schedule(sess, rng, r, sched, cache, 'h%d-%d' % (seed, i), snd_to=rng.choice([10, 10, 3, 0, 10, 3, 0, rng.choice(HUGE)]), rcv_to=rng.choice([10, 10, 3, 0, 10, 3, 0, rng.choice(HUGE)]), maxreq=rng.choice([1000, 1000, 1, 2]))
             if i == 0:
                 r.sample(dict(transport='http', cache=cache, steps=len(m.trace), trace=m.trace[1:20]))
     else:
@@ -565,8 +569,8 @@ def worker(job, r):
             n = rng.choice([8, 20, 60, 200])
             weights = {'add': 6, 'run': 8, 'reply': 6, 'reply_last': 2, 'clock': 2}
             sched = rng.choices(ACTIONS, weights=[weights.get(a, 1) for a in ACTIONS], k=n)
-            m = run_schedule(sess, rng, r, sched, cache, 'r%d-%d' % (seed, i), snd_to=rng.choice([10, 10, 3, 0]), rcv_to=rng.choice([10, 10, 3, 0]),
-                             con_to=rng.choice([10, 2]), maxreq=rng.choice([1000, 1000, 1, 2]))
+            m = run_schedule(sess, rng, r, sched, cache, 'r%d-%d' % (seed, i), snd_to=rng.choice([10, 10, 3, 0, 10, 3, 0, rng.choice(HUGE)]), rcv_to=rng.choice([10, 10, 3, 0, 10, 3, 0, rng.choice(HUGE)]),
+                             con_to=rng.choice([10, 2, 10, 2, 10, 2, rng.choice(HUGE)]), maxreq=rng.choice([1000, 1000, 1, 2]))
             if i == 0:
                 r.sample(dict(cache=cache, steps=len(m.trace), trace=m.trace[:25]))
     pool.check_exit(None, r, sess.ex)
